@@ -94,6 +94,20 @@ func computeFieldAliases(p *Prog) {
 		})
 		set("stopQ", cands)
 	}
+	// running: the boolean the function that starts the Tty raises after the start
+	if engage != nil {
+		cands := map[string]bool{}
+		eachInstr(engage, func(in ssa.Instruction) {
+			if s, ok := in.(*ssa.Store); ok {
+				if v, isC := constBool(s.Val); isC && v {
+					if n, ok := rawRef(s.Addr); ok {
+						cands[n] = true
+					}
+				}
+			}
+		})
+		set("running", cands)
+	}
 	// quit: the channel the shared layer asks for through StopQ() (PollEvent and ChannelEvents wait on it)
 	if sq := p.Fn("tcell:(*tScreen).StopQ"); sq != nil {
 		cands := map[string]bool{}
